@@ -121,6 +121,10 @@ func c02Exec(in c02Input) (c02Obs, []fakedocker.LogCall) {
 	sel := c02Selector(in.Matchers)
 	query := sel
 	params := logqlengine.EvalParams{Start: otelstorage.Timestamp(in.StartNS), End: otelstorage.Timestamp(in.EndNS), Limit: -1}
+	if strings.HasPrefix(in.Shape, "prelude:") {
+		query = sel + " |~ " + strconv.Quote(strings.TrimPrefix(in.Shape, "prelude:"))
+		params.Step = time.Second
+	}
 	switch in.Shape {
 	case "log":
 		params.Step = time.Second
@@ -377,6 +381,11 @@ func c02Matchers() []c02Matcher {
 func c02Run(r *vkit.Run) {
 	vars := c02Variants()
 	ms := c02Matchers()
+	// Non-initial state: the same texts are first used as (unanchored) line-filter regexes in this process, so
+	// that anything cached per pattern text across queries would be met in its other role by the selectors below.
+	for _, v := range []string{"a", "b", "ab", "a.*", ".*", ".+", "a|b", "v", "i1", "running", "id[12]", "run.*", "Up.*"} {
+		_, _ = c02Exec(c02Input{Ctrs: vars[:2], Matchers: []c02Matcher{{Label: "container", Op: "=~", Value: ".*"}}, Shape: "prelude:" + v, StartNS: 0, EndNS: 3 * sec})
+	}
 	// inventories: consecutive triples of the variant list (every variant is in exactly one), plus
 	// singletons and pairs that repeat a name (same name, different image/state).
 	var invs [][]c02Ctr
